@@ -108,7 +108,25 @@ def builders() -> Dict[str, Callable[[], object]]:
         loft.add_side_edge(0, cb.OnCurve(curve, n_points=4))
         return loft
 
+    def sketch_updated():
+        # a sketch whose points were put in place by update() from an array (what the sketch optimizer does at the end)
+        good = np.array([[0.5, 0.25, 0.1], [1.5, 0.3, 0.1], [2.6, 0.2, 0.2], [0.4, 1.2, 0.1], [1.6, 1.3, 0.2], [2.5, 1.25, 0.3],
+                         [0.45, 2.2, 0.1], [1.5, 2.3, 0.2], [2.55, 2.1, 0.3]], dtype=float)
+        quads = [[0, 1, 4, 3], [1, 2, 5, 4], [3, 4, 7, 6], [4, 5, 8, 7]]
+        sketch = cb.MappedSketch(good[::-1] * 0.5 + 3.0, quads)
+        sketch.update(good)
+        return sketch
+
+    def face_updated():
+        face = face_edges()
+        pts = np.array(quad(0), dtype=float)
+        face.translate([3.0, -2.0, 1.0])
+        face.update(pts)
+        return face
+
     return {
+        "sketch_updated": sketch_updated,
+        "face_updated": face_updated,
         "point": lambda: cb.Face(quad(0)).points[2],
         "face_edges": face_edges,
         "loft_edges": loft_edges,
@@ -161,7 +179,9 @@ def snapshot(kind: str, entity) -> dict:
 
     if kind == "point":
         return {"points": [list(entity.position)], "edges": []}
-    if kind == "face_edges":
+    if kind == "sketch_updated":
+        return {"points": [list(p) for face in entity.faces for p in face.point_array], "edges": []}
+    if kind in ("face_edges", "face_updated"):
         pts = [list(p) for p in entity.point_array]
         edges = []
         for i in range(4):
@@ -327,6 +347,8 @@ def constructor_inputs(ctx: Ctx) -> None:
     import numpy as np
 
     def pts(e):
+        if hasattr(e, "faces"):
+            return np.array([f.point_array for f in e.faces]).reshape((-1, 3))
         if hasattr(e, "curve"):
             return np.array(e.curve.discretize())
         if hasattr(e, "discretize"):
@@ -341,7 +363,18 @@ def constructor_inputs(ctx: Ctx) -> None:
             return np.array(e.axis.components if hasattr(e.axis, "components") else e.axis)
         return np.array(e.position)
 
+    def updated_face(a):
+        face = cb.Face(a[:4] + 1.0)
+        face.update(a[:4])
+        return face
+
+    def updated_sketch(a):
+        sketch = cb.MappedSketch(a + 1.0, [[0, 1, 2, 3], [0, 3, 4, 5]])
+        sketch.update(a)
+        return sketch
+
     makers = {
+        "Face.update": updated_face, "MappedSketch.update": updated_sketch,
         "Spline": lambda a: cb.Spline(a), "PolyLine": lambda a: cb.PolyLine(a),
         "DiscreteCurve": lambda a: cb.DiscreteCurve(a), "LinearInterpolatedCurve": lambda a: cb.LinearInterpolatedCurve(a),
         "SplineInterpolatedCurve": lambda a: cb.SplineInterpolatedCurve(a), "Face": lambda a: cb.Face(a[:4]),
@@ -349,7 +382,7 @@ def constructor_inputs(ctx: Ctx) -> None:
         "Loft": lambda a: cb.Loft(cb.Face(a[:4]), cb.Face(a[:4] + np.array([0.0, 0.0, 1.5]))),
     }
     for name, make in makers.items():
-        arr = np.array([[0.5, 0.25, 0.0], [2.0, 0.5, 0.25], [2.25, 1.75, 0.5], [0.25, 1.5, 0.75], [-0.5, 0.75, 1.0]], dtype=float)
+        arr = np.array([[0.5, 0.25, 0.0], [2.0, 0.5, 0.25], [2.25, 1.75, 0.5], [0.25, 1.5, 0.75], [-0.5, 0.75, 1.0], [-0.75, 0.25, 0.5]], dtype=float)
         keep = arr.copy()
         try:
             first, second = make(arr), make(arr)
